@@ -29,6 +29,85 @@ unsigned g_hw = 4;
 // interposes libstdc++'s definition: the pool size chosen by parallel_sample_sort_base
 unsigned int std::thread::hardware_concurrency() noexcept { return g_hw; }
 
+// ------------------------------------------------------------------ death reports
+// A sanitizer report or a failed assert() of tlx is turned into a compact `C04-DEATH:` line
+// (error kind + innermost frame inside tlx/sort or tlx/thread_pool, without addresses,
+// template arguments and line numbers) before the process dies.
+static std::string strip_templates(const std::string& f) {
+    std::string r; int depth = 0;
+    for (char c : f) {
+        if (c == '<') ++depth;
+        else if (c == '>') { if (depth > 0) --depth; }
+        else if (depth == 0) r.push_back(c);
+    }
+    size_t p;
+    while ((p = r.find("tlx::sort_strings_detail::")) != std::string::npos) r.erase(p, 26);
+    p = r.find('(');
+    if (p != std::string::npos) r.erase(p);
+    return r;
+}
+static void emit_death(const std::string& msg) {
+    // stderr: the check (checks/c04.py, crash_message_c04) turns it into the class of the crash
+    std::string l = "\nC04-DEATH: " + msg + "\n";
+    fflush(stdout);
+    (void)!write(2, l.data(), l.size());
+}
+static std::string frame_in_tlx(const std::string& rep, size_t from, size_t to) {
+    size_t pos = from;
+    while (pos < to) {
+        size_t e = rep.find('\n', pos);
+        if (e == std::string::npos) e = rep.size();
+        std::string line = rep.substr(pos, e - pos);
+        size_t h = line.find("    #"), in = line.find(" in ");
+        if (h == 0 && in != std::string::npos) {
+            std::string f = line.substr(in + 4);
+            // drop the trailing " /file:line" or " (module+0x...)"
+            size_t sp = f.rfind(" /");
+            if (sp == std::string::npos) sp = f.rfind(" (/");
+            if (sp != std::string::npos) f.erase(sp);
+            // the function itself (template arguments removed) must belong to the sorter or the pool
+            std::string bare; { int d = 0; for (char c : f) { if (c == '<') ++d; else if (c == '>') { if (d) --d; } else if (!d) bare.push_back(c); } }
+            if (bare.find("tlx::sort_strings_detail::") != std::string::npos || bare.find("tlx::ThreadPool::") != std::string::npos)
+                return strip_templates(f);
+        }
+        pos = e + 1;
+    }
+    return "?";
+}
+#if defined(__SANITIZE_ADDRESS__)
+extern "C" void __asan_set_error_report_callback(void (*)(const char*));
+static void asan_report(const char* text) {
+    std::string rep(text);
+    size_t k = rep.find("ERROR: AddressSanitizer: ");
+    std::string kind = "error";
+    if (k != std::string::npos) { size_t b = k + 25, e = rep.find_first_of(" \n", b); kind = rep.substr(b, e - b); }
+    size_t second = rep.find(" by thread", k == std::string::npos ? 0 : k);     // "freed by thread" / "allocated by thread"
+    std::string where = frame_in_tlx(rep, 0, second == std::string::npos ? rep.size() : second);
+    std::string freed;
+    size_t fr = rep.find("freed by thread");
+    if (fr != std::string::npos) {
+        size_t al = rep.find("previously allocated", fr);
+        freed = ", freed in " + frame_in_tlx(rep, fr, al == std::string::npos ? rep.size() : al);
+    }
+    emit_death("asan " + kind + " in " + where + freed);
+}
+#endif
+#if defined(__SANITIZE_THREAD__)
+extern "C" int __tsan_on_finalize(int failed) { return failed; }
+#endif
+extern "C" void __assert_fail(const char* expr, const char* file, unsigned int, const char* func) noexcept {
+    std::string f = func ? func : "?";
+    size_t w = f.find(" [with");
+    if (w != std::string::npos) f.erase(w);
+    size_t sp = f.find("tlx::");
+    if (sp != std::string::npos) f.erase(0, sp);
+    std::string fl = file ? file : "?";
+    size_t t = fl.find("/tlx/");
+    if (t != std::string::npos) fl.erase(0, t + 1);
+    emit_death(std::string("assertion `") + expr + "' failed in " + strip_templates(f) + " (" + fl + ")");
+    abort();
+}
+
 static const ParamInfo* find_params(const std::string& n) {
     for (const ParamInfo* tab : {PARAMS_A, PARAMS_B, PARAMS_C, PARAMS_D})
         for (const ParamInfo* p = tab; p->name; ++p) if (n == p->name) return p;
@@ -215,6 +294,9 @@ static void do_classify(const std::vector<std::string>& t, bool with_step) {
 }
 
 int main(int argc, char** argv) {
+#if defined(__SANITIZE_ADDRESS__)
+    __asan_set_error_report_callback(asan_report);
+#endif
     if (argc < 2 || std::string(argv[1]) != "run") { std::cerr << "usage: c04 run\n"; return 2; }
     std::string line;
     Strs input;                       // strings of the current case (`s` lines)
